@@ -235,6 +235,9 @@ func (g *gen) need(depth int) int {
 	case k < 60 && g.budget > 0:
 		return g.structField(depth)
 	case k < 70 && g.budget > 0:
+		if g.o.Static && len(g.s.ExtPkgs) > 0 && g.budget > 1 && g.r.Intn(3) == 0 {
+			return g.foreignChain(depth)
+		}
 		return g.boundIface(depth)
 	case k < 80 && g.o.Wire && g.budget > 0 && depth < 4:
 		return g.assemble(depth)
